@@ -53,3 +53,44 @@ fn witness_c11_horizon_terminal_positions() {
     }
     assert_eq!(bad, 0);
 }
+
+/// the same terminal positions reached BELOW the horizon (depth 2 and 3: the node without legal moves is an interior node of
+/// search_negamax, valued by the block behind its move loop), and a quiet middle-game control: a node WITH legal moves must not
+/// be valued as a terminal one
+#[test]
+fn witness_c11_horizon_interior_terminal_positions() {
+    let mut bad = 0;
+    for (fen, only, expect_mate, expect_draw) in [
+        ("6k1/5ppp/8/p7/1P6/8/1B4Q1/6K1 w - - 0 1", Some("g2g7"), Some(1), false),
+        ("6k1/1b4q1/8/1p6/P7/8/5PPP/6K1 b - - 0 1", Some("g7g2"), Some(1), false),
+        ("7k/8/5K2/8/8/8/8/6Q1 w - - 0 1", Some("g1g7"), Some(1), false),
+        ("6q1/8/8/8/8/5k2/8/7K b - - 0 1", Some("g8g2"), Some(1), false),
+        ("k7/P7/2K5/8/8/8/8/8 w - - 0 1", Some("c6b6"), None, true),
+        ("8/8/8/8/8/2k5/p7/K7 b - - 0 1", Some("c3b3"), None, true),
+        ("7k/8/5QK1/8/8/8/8/8 w - - 0 1", Some("f6f7"), None, true),
+    ] {
+        for depth in [2u64, 3] {
+            let s = score(fen, depth, only);
+            let ok = match (&s, expect_mate, expect_draw) {
+                (Score::Mate { mate_in }, Some(k), _) => *mate_in == k,
+                (Score::Centipawn { score }, None, true) => score.abs() <= 100,
+                _ => false,
+            };
+            if !ok {
+                println!("FAILING-INPUT: fen={:?} go depth {} searchmoves {:?}: scored {:?}, expected {}", fen, depth, only, s, if let Some(k) = expect_mate { format!("mate {}", k) } else { "a draw".to_string() });
+                bad += 1;
+            }
+        }
+    }
+    // control: nobody is mated or stalemated anywhere near; a search that values nodes with legal moves as terminal reports a mate or 0
+    for fen in ["r1bqkbnr/pppp1ppp/2n5/4p3/4P3/5N2/PPPP1PPP/RNBQKB1R w KQkq - 2 3", "r1bqkbnr/pppp1ppp/2n5/4p3/4P3/5N2/PPPP1PPP/RNBQKB1R b KQkq - 2 3"] {
+        for depth in [2u64, 3] {
+            let s = score(fen, depth, None);
+            if !matches!(s, Score::Centipawn { score } if score.abs() < 400) {
+                println!("FAILING-INPUT: fen={:?} go depth {}: scored {:?} in a quiet, level opening position", fen, depth, s);
+                bad += 1;
+            }
+        }
+    }
+    assert_eq!(bad, 0);
+}
